@@ -59,9 +59,59 @@ def fn_loc(f):
 
 # ---------------------------------------------------------------------------------------------------------- LAYOUT
 
+_PROG = [None]
+_CONST_RANGE = {}
+
+
+def const_range(path):
+    """Value of a named `const X: Range*<usize> = a..b;`.  The driver dumps only scalar constants, so the definition is
+    read where the item table says it is (file, line): the initialiser must be a literal range whose bounds are integer
+    literals or named scalar constants.  None if it cannot be read (callers fail closed)."""
+    if path in _CONST_RANGE:
+        return _CONST_RANGE[path]
+    P = _PROG[0]
+    out = None
+    item = next((c for c in P.consts() if c["path"] == path), None) if P is not None else None
+    if item is not None and item.get("file"):
+        from pv.facts import REPO
+        try:
+            lines = open(os.path.join(REPO, item["file"])).read().split("\n")
+            text = " ".join(lines[item["line"] - 1:item["line"] + 3])
+            m = re.search(r"\b%s\s*:[^=]*=\s*([^;]*);" % re.escape(path.rsplit("::", 1)[1]), text)
+            if m:
+                init = m.group(1).strip()
+
+                def bound(x):
+                    x = x.strip().replace("_", "") if re.fullmatch(r"[0-9_]+(usize)?", x.strip()) else x.strip()
+                    x = re.sub(r"usize$", "", x)
+                    if re.fullmatch(r"\d+", x):
+                        return int(x)
+                    if re.fullmatch(r"0x[0-9a-fA-F]+", x):
+                        return int(x, 16)
+                    cands = [c for c in P.consts() if c["path"].endswith("::" + x.split("::")[-1]) and c.get("val") is not None
+                             and c["path"].split("::")[0] == path.split("::")[0]]
+                    if len(cands) == 1:
+                        return int(cands[0]["val"])
+                    raise ValueError(x)
+                mm = re.fullmatch(r"(.*?)\.\.(=?)(.*)", init)
+                if mm and not mm.group(2):
+                    lo = bound(mm.group(1)) if mm.group(1).strip() else 0
+                    hi = bound(mm.group(3)) if mm.group(3).strip() else None
+                    out = (lo, hi)
+        except (OSError, ValueError, IndexError):
+            out = None
+    _CONST_RANGE[path] = out
+    return out
+
+
 def _range_of(sym):
     """(lo, hi) of the first constant range used to slice inside a symbolic expression (hi None = open)."""
     for s in sym_walk(sym):
+        if s[0] == "constsym" and str(s[2]).startswith("core::ops::range::Range") and isinstance(s[1], str):
+            r = const_range(s[1])
+            if r is None:
+                raise Unanalysable("the value of the range constant %s cannot be read" % s[1])
+            return r
         if s[0] == "agg" and str(s[1]).startswith("core::ops::range::Range"):
             name = str(s[1])
             fs = s[3]
@@ -93,12 +143,13 @@ def _field_of(sym, header):
 
 def writer_layout(f, total):
     out = []
+    sx = X.SymX(f)
     for bi, t in f.calls():
         name = cname(t)
         m = BO_RW.match(name)
         if m and m.group(2) == "write":
-            dst = f.sym_operand(t["args"][0])
-            val = f.sym_operand(t["args"][1])
+            dst = sx.operand(t["args"][0])
+            val = sx.operand(t["args"][1])
             r = _range_of(dst)
             if r is None:
                 raise Unanalysable("write without a constant byte range")
@@ -108,8 +159,8 @@ def writer_layout(f, total):
             lo, hi = r
             out.append((lo, hi if hi is not None else total, fld, "be" if m.group(1) == "BigEndian" else "le", WIDTH[m.group(3)]))
         elif name.endswith("::copy_from_slice"):
-            dst = f.sym_operand(t["args"][0])
-            src = f.sym_operand(t["args"][1])
+            dst = sx.operand(t["args"][0])
+            src = sx.operand(t["args"][1])
             r = _range_of(dst)
             conv = [s for s in sym_walk(src) if s[0] == "call" and BYTES_FN.search(strip_generics(s[1]))]
             if r is None or not conv:
@@ -126,6 +177,47 @@ def writer_layout(f, total):
     return out
 
 
+def helper_load(g):
+    """A private helper `fn(bytes: &[u8]) -> uN` that decodes its whole argument: (endianness, width) or None.
+    Accepted bodies: byteorder read_uN(bytes); uN::from_xx_bytes(bytes.try_into()..); uN::from_xx_bytes([bytes[0], .., bytes[w-1]])."""
+    if g.argc != 1:
+        return None
+    ret = X.SymX(g)._slot(0, 40)
+    while ret[0] in ("cast",):
+        ret = ret[1]
+    if ret[0] != "call":
+        return None
+    nm = strip_generics(ret[1])
+    m = BO_RW.match(nm)
+
+    def whole_param(sy):
+        while sy[0] in ("ref", "deref", "cast"):
+            sy = sy[1]
+        if sy[0] == "call" and re.search(r"::(try_into|unwrap|expect|try_from|into|from|as_ref|deref)$", strip_generics(sy[1])) and sy[2]:
+            return whole_param(sy[2][0])
+        return sy[0] == "param" and sy[1] == 1
+
+    if m and m.group(2) == "read" and whole_param(ret[2][0]):
+        return ("be" if m.group(1) == "BigEndian" else "le", WIDTH[m.group(3)])
+    mm = BYTES_FN.search(nm)
+    if mm and mm.group(1) == "from" and ret[2]:
+        a = ret[2][0]
+        if whole_param(a):
+            return (mm.group(2), None)
+        if a[0] == "agg" and a[1] == "array":
+            idx = []
+            for el in a[3]:
+                while el[0] in ("cast",):
+                    el = el[1]
+                if el[0] == "index" and whole_param(el[1]) and len(el) > 2 and el[2][0] == "const":
+                    idx.append(int(el[2][1]))
+                else:
+                    return None
+            if idx == list(range(len(idx))):
+                return (mm.group(2), len(idx))
+    return None
+
+
 def reader_layout(P, f, header, total):
     a = P.adt(header)
     names = [fd["name"] for fd in a["variants"][0]["fields"]]
@@ -133,8 +225,9 @@ def reader_layout(P, f, header, total):
     aggs = [(bi, si, s[2]) for bi, si, s in f.statements() if s[0] == "a" and s[2]["k"] == "agg" and s[2].get("adt") == header]
     if len(aggs) != 1:
         raise Unanalysable("%d constructions of the header" % len(aggs))
+    sx = X.SymX(f)
     for i, fo in enumerate(aggs[0][2]["fields"]):
-        sym = f.sym_operand(fo)
+        sym = sx.operand(fo)
         load = None
         for s in sym_walk(sym):
             if s[0] == "call":
@@ -147,6 +240,12 @@ def reader_layout(P, f, header, total):
                 if mm and mm.group(1) == "from":
                     load = (mm.group(2), None, s)
                     break
+                g = P.fns.get(s[1])
+                if g is not None and g.crate == f.crate and g.kind != "Closure":
+                    hl = helper_load(g)
+                    if hl is not None:
+                        load = (hl[0], hl[1], s)
+                        break
         if load is None:
             raise Unanalysable("field `%s` is not loaded from the bytes by a recognisable idiom: %s" % (names[i], sym_str(sym, 60)))
         r = _range_of(load[2])
@@ -173,6 +272,8 @@ def header_fns(P, crate, header):
 
 
 def check_layout(res, P, spec):
+    _PROG[0] = P
+    _CONST_RANGE.clear()
     spec_set = {(fd["lo"], fd["hi"], fd["name"], spec["endian"]) for fd in spec["fields"]}
     total = spec["header_len"]
     layouts = {}
@@ -248,109 +349,174 @@ def callee_is(t, g):
     return (t.get("f") or "") == g.path
 
 
-def segment_io_fns(P, crate, header):
-    """(readers, writers): functions that build a Header from bytes read off the bearer / that build a Header to send."""
-    readers, writers = [], []
-    for f in P.by_crate[crate]:
-        if is_test_code(f):
+def _is_conversion(f, header):
+    return f.kind != "Closure" and (f.local_ty(0) == header or any(re.sub(r"^&(mut )?", "", f.local_ty(i)) == header for i in range(1, f.argc + 1)))
+
+
+def _strip_ref(ty):
+    return re.sub(r"^&+(mut )?", "", ty or "")
+
+
+def header_field_reads(f, header):
+    """{slicing key of dst: field name} for every statement that copies a named field out of a Header-typed place."""
+    og = X.Origins(f)
+    out = {}
+    for bi, si, s in f.statements():
+        if s[0] != "a" or s[2]["k"] not in ("use", "cast"):
             continue
-        if f.local_ty(0) == header or any(re.sub(r"^&(mut )?", "", f.local_ty(i)) == header for i in range(1, f.argc + 1)):
-            continue    # the conversions themselves
+        p = op_place(s[2]["x"])
+        if p is None or not pl_proj(p):
+            continue
+        cur = f.local_ty(pl_local(p))
+        name = None
+        for e in pl_proj(p):
+            if e[0] == "field":
+                if _strip_ref(cur) == header and isinstance(e[2], str):
+                    name = e[2]
+                cur = e[3]
+            elif e[0] == "deref":
+                cur = _strip_ref(cur)
+        if name is not None and _strip_ref(cur) != header:
+            out[og._key(s[1])] = name
+    return out
+
+
+def segment_io_fns(P, crate, header):
+    """(decode sites, field readers, writers): calls that yield a Header from bytes read off the bearer; functions that read
+    fields of a Header; functions that build a Header to send."""
+    decoders, readers, writers = [], [], []
+    for f in P.by_crate[crate]:
+        if is_test_code(f) or _is_conversion(f, header):
+            continue
         for bi, si, s in f.statements():
             if s[0] == "a" and s[2]["k"] == "agg" and s[2].get("adt") == header:
                 writers.append(f)
                 break
         for bi, t in f.calls():
-            d = t["dest"]
-            dty = None
-            if isinstance(d, int):
-                dty = f.local_ty(d)
-            else:
-                for e in reversed(pl_proj(d)):
-                    if e[0] == "field":
-                        dty = e[3]
-                        break
-            if dty == header:
-                readers.append((f, bi, t))
-    return readers, writers
+            g = P.fns.get(t.get("f") or "")
+            if g is None or not _is_conversion(g, header) or g.local_ty(0) != header:
+                continue
+            decoders.append((f, bi, t))
+        if header_field_reads(f, header):
+            readers.append(f)
+    return decoders, readers, writers
 
 
 def check_frame(res, P, spec):
     for crate, cfg in STACKS.items():
         header = cfg["header"]
-        readers, writers = segment_io_fns(P, crate, header)
+        decoders, readers, writers = segment_io_fns(P, crate, header)
         res.count("segment_readers", len(readers))
+        res.count("segment_header_decodes", len(decoders))
         res.count("segment_writers", len(writers))
-        if not readers:
-            res.violation("frame:%s:no-reader" % crate, "no function of %s decodes a segment header (fail closed)" % crate, rule="FRAME")
+        if not decoders or not readers:
+            res.violation("frame:%s:no-reader" % crate, "no function of %s decodes a segment header / reads its fields (fail closed)" % crate, rule="FRAME")
         if not writers:
             res.violation("frame:%s:no-writer" % crate, "no function of %s builds a segment header (fail closed)" % crate, rule="FRAME")
-        for f, hb, ht in readers:
-            check_read_segment(res, P, f, hb, ht, header, spec)
+        for f, hb, ht in decoders:
+            check_header_decode(res, P, f, hb, ht, header, spec)
+        for f in readers:
+            check_read_segment(res, P, f, header, spec)
         for f in writers:
             check_write_segment(res, P, f, header, spec)
 
 
-def _from_elems(f):
-    return [(bi, t) for bi, t in f.calls() if re.search(r"^alloc::vec::from_elem$|^alloc::vec::Vec::with_capacity$|^alloc::vec::Vec::resize$", cname(t))]
+ALLOC = re.compile(r"^alloc::vec::from_elem$|^alloc::vec::Vec::with_capacity$|^alloc::vec::Vec::resize$")
 
 
-def check_read_segment(res, P, f, hb, ht, header, spec):
-    kb = "frame:%s:read" % f.path
+def _buffer_sizes(P, f, o, depth=0):
+    """Constant sizes of the buffers an operand may be (a view of): vec![0; N], [0; N]; captured variables of a closure are
+    followed into the function that builds the closure.  None entries = non-constant size."""
     og = X.Origins(f)
-    L = X.LogicalCFG(f)
-    allocs = _from_elems(f)
-    # (1) the header is decoded from a buffer of exactly header_len bytes
-    horig = og.of_operand(ht["args"][0])
-    hallocs = [(bi, t) for bi, t in allocs if ("call", cname(t), bi) in horig]
     sizes = []
-    for bi, t in hallocs:
-        s = f.sym_operand(t["args"][-1])
-        sizes.append(int(s[1]) if s[0] == "const" else None)
-    if len(hallocs) == 1 and sizes[0] == spec["header_len"]:
+    for x in og.of_operand(o):
+        if x[0] == "call" and ALLOC.match(x[1]):
+            sy = X.SymX(f).operand(f.blocks[x[2]]["term"]["args"][-1])
+            sizes.append(int(sy[1]) if sy[0] == "const" else None)
+        elif x[0] == "repeat":
+            m = re.match(r"^(\d+)", x[1])
+            sizes.append(int(m.group(1)) if m else None)
+        elif x[0] == "upvar" and depth < 2 and f.kind == "Closure" and not X.is_coroutine_state_ty(f.local_ty(1) if f.argc else ""):
+            cs = X.closure_site(P, f)
+            if cs is not None and x[1] < len(cs[2]):
+                sizes += _buffer_sizes(P, cs[0], cs[2][x[1]], depth + 1)
+    return sizes
+
+
+def check_header_decode(res, P, f, hb, ht, header, spec):
+    kb = "frame:%s:read" % f.path
+    sizes = _buffer_sizes(P, f, ht["args"][0])
+    if len(sizes) == 1 and sizes[0] == spec["header_len"]:
         res.ok(kb + ":header-size", "FRAME", "header decoded from a %d-byte buffer" % sizes[0])
     else:
         res.violation(kb + ":header-size", "%s: the segment header is not decoded from a buffer of exactly %d bytes (found sizes %s)" % (
             f.path, spec["header_len"], sizes), where=where(f, ht.get("s")), rule="FRAME")
-    # (2) the payload buffer has header.payload_len bytes
-    reads = {}
-    hkey = og._key(ht["dest"])
-    for bi, si, s in f.statements():
-        if s[0] != "a" or s[2]["k"] not in ("use", "cast"):
+
+
+def helper_alloc(P, g):
+    """If the (async) workspace function g allocates a buffer sized by exactly one of its parameters: that parameter's index."""
+    body = X.async_body(P, g)
+    if body is None:
+        return None
+    og = X.Origins(body)
+    ups = X.upvar_params(P, body) if body is not g else {}
+    for bi, t in body.calls():
+        if not ALLOC.match(cname(t)):
             continue
-        p = op_place(s[2]["x"])
-        if p is None:
+        leaves = og.of_operand(t["args"][-1])
+        if any(x[0] in ("bin", "un", "call") for x in leaves):
             continue
-        key, fields = X.named_field_path(f, s[2]["x"])
-        if key == hkey and fields:
-            reads[og._key(s[1])] = fields[-1]
+        ps = {ups.get(x[1], (None,))[0] for x in leaves if x[0] == "upvar"} | {x[1] for x in leaves if x[0] == "param"}
+        ps.discard(None)
+        if len(ps) == 1:
+            return next(iter(ps))
+    return None
+
+
+def check_read_segment(res, P, f, header, spec):
+    kb = "frame:%s:read" % f.path
+    og = X.Origins(f)
+    reads = header_field_reads(f, header)
 
     def header_fields(o):
         """names of the header fields a value is computed from (copies, casts, From/Into conversions)"""
         seen, leaves = X.slice_keys(f, o)
+        p = op_place(o)
         flds = {reads[k] for k in seen if k in reads}
-        key, fields = X.named_field_path(f, o)
-        if key == hkey and fields:
-            flds.add(fields[-1])
         return flds, leaves
 
-    pallocs = [(bi, t) for bi, t in allocs if (bi, t) not in hallocs]
+    # payload buffers: allocated here, or by a helper that is handed the size
+    pallocs = []     # (bb, call, size operand, origin-call prefix)
+    for bi, t in f.calls():
+        if ALLOC.match(cname(t)):
+            pallocs.append((bi, t, t["args"][-1], None))
+            continue
+        g = P.fns.get(t.get("f") or "")
+        if g is not None and g.crate == f.crate and g.kind != "Closure":
+            idx = helper_alloc(P, g)
+            if idx is not None and idx - 1 < len(t["args"]):
+                pallocs.append((bi, t, t["args"][idx - 1], g.path))
     good = None
-    for bi, t in pallocs:
-        szop = t["args"][-1]
+    bad = None
+    for bi, t, szop, helper in pallocs:
         flds, leaves = header_fields(szop)
         arith = [o for o in leaves if o[0] in ("bin", "un")]
+        if not flds and not helper and X.SymX(f).operand(szop)[0] == "const":
+            continue      # some other constant-size buffer (e.g. the header bytes themselves)
         if flds == {"payload_len"} and not arith:
-            good = (bi, t)
+            good = (bi, t, helper)
         else:
-            res.violation(kb + ":payload-size", "%s: a payload buffer is sized by %s%s, not by the header's `payload_len`: the reader gets out of step "
-                          "with the segment boundaries" % (f.path, sorted(flds) or "something else", " with arithmetic" if arith else ""),
-                          where=where(f, t.get("s")), rule="FRAME")
+            bad = (bi, t, flds, arith)
     if good is not None:
         res.ok(kb + ":payload-size", "FRAME", "payload buffer sized by header.payload_len")
-    elif not pallocs:
+    elif bad is not None:
+        bi, t, flds, arith = bad
+        res.violation(kb + ":payload-size", "%s: a payload buffer is sized by %s%s, not by the header's `payload_len`: the reader gets out of step "
+                      "with the segment boundaries" % (f.path, sorted(flds) or "something else", " with arithmetic" if arith else ""),
+                      where=where(f, t.get("s")), rule="FRAME")
+    elif "payload_len" in reads.values():
         res.violation(kb + ":payload-size", "%s: no payload buffer sized by the header's `payload_len`" % f.path, where=fn_loc(f), rule="FRAME")
-    # (3) returned (protocol, payload)
+    # returned (protocol, payload)
     okret = False
     for bi, si, s in f.statements():
         if s[0] == "a" and s[2]["k"] == "agg" and s[2].get("ak") == "tuple" and len(s[2]["fields"]) == 2:
@@ -358,15 +524,18 @@ def check_read_segment(res, P, f, hb, ht, header, spec):
             if not flds:
                 continue
             porig = og.of_operand(s[2]["fields"][1])
-            if flds == {"protocol"} and good is not None and ("call", cname(good[1]), good[0]) in porig:
-                okret = True
+            okbuf = False
+            if good is not None:
+                gb, gt, helper = good
+                okbuf = ("call", cname(gt), gb) in porig or (helper is not None and any(x[0] == "call" and x[1].startswith(strip_generics(helper)) for x in porig))
+            okret = True
+            if flds == {"protocol"} and okbuf:
                 res.ok(kb + ":returns", "FRAME", "returns (header.protocol, payload buffer)")
             else:
-                okret = True
                 res.violation(kb + ":returns", "%s: returns the header field %s with the payload instead of `protocol` (or a buffer that is not the "
                               "one read for this segment): chunks are routed to the wrong protocol" % (f.path, sorted(flds)),
                               where=where(f, s[-1] if isinstance(s[-1], list) else None), rule="FRAME")
-    if not okret:
+    if not okret and "protocol" in reads.values():
         res.violation(kb + ":returns", "%s: cannot find the (protocol, payload) pair it returns" % f.path, where=fn_loc(f), rule="FRAME")
 
 
@@ -505,31 +674,126 @@ def agent_protocol_expr(P, f):
     return None
 
 
+_SYM_CACHE = {}
+
+
+def _sx(f):
+    k = id(f)
+    if k not in _SYM_CACHE:
+        _SYM_CACHE[k] = (X.SymX(f), {})
+    return _SYM_CACHE[k]
+
+
+def _arg_sym(f, bb, i):
+    sx, memo = _sx(f)
+    if (bb, i) not in memo:
+        memo[(bb, i)] = sx.operand(f.blocks[bb]["term"]["args"][i])
+    return memo[(bb, i)]
+
+
+def _ret_sym(f):
+    sx, memo = _sx(f)
+    if "ret" not in memo:
+        memo["ret"] = sx._slot(0, 40)
+    return memo["ret"]
+
+
+def _call_env(P, f, bb, env):
+    """parameter values of the workspace callee at block bb, as far as its arguments evaluate under env"""
+    t = f.blocks[bb]["term"]
+    out = {}
+    for i in range(len(t["args"])):
+        try:
+            out[("param", i + 1)] = _eval_key(P, f, _arg_sym(f, bb, i), env)
+        except X.NotEvaluable:
+            pass
+    return out
+
+
+def subscribed_ids(P, f, env, depth=0):
+    """ids handed to Demuxer::subscribe by f (directly or through private helpers) when its parameters are env"""
+    out = []
+    for bi, t in f.calls():
+        g = P.fns.get(t.get("f") or "")
+        if g is None or g.crate != f.crate or g.kind == "Closure":
+            continue
+        if g.path.endswith("::Demuxer::subscribe"):
+            out.append(_eval_key(P, f, _arg_sym(f, bi, 1), env))
+        elif depth < 3 and g is not f and _reaches_subscribe(P, g):
+            out += subscribed_ids(P, g, _call_env(P, f, bi, env), depth + 1)
+    return out
+
+
+_REACH = {}
+
+
+def _reaches_subscribe(P, g, depth=0):
+    if g.path in _REACH:
+        return _REACH[g.path]
+    _REACH[g.path] = False
+    r = False
+    for bi, t in g.calls():
+        h = P.fns.get(t.get("f") or "")
+        if h is None or h.crate != g.crate or h.kind == "Closure":
+            continue
+        if h.path.endswith("::Demuxer::subscribe") or (depth < 3 and _reaches_subscribe(P, h, depth + 1)):
+            r = True
+            break
+    _REACH[g.path] = r
+    return r
+
+
+def stamped_id(P, f, env, agent_adt, depth=0):
+    """`protocol` field of the AgentChannel f returns (through constructor helpers) when its parameters are env"""
+    ret = _ret_sym(f)
+    if ret[0] == "agg" and ret[1] == agent_adt:
+        a = P.adt(agent_adt)
+        idx = [i for i, fd in enumerate(a["variants"][0]["fields"]) if fd["name"] == "protocol"]
+        if not idx:
+            raise X.NotEvaluable("AgentChannel has no `protocol` field")
+        return _eval_key(P, f, ret[3][idx[0]], env)
+    if ret[0] == "call" and depth < 4:
+        g = P.fns.get(ret[1])
+        if g is not None and g.crate == f.crate and g.kind != "Closure":
+            genv = {}
+            for i, a in enumerate(ret[2]):
+                try:
+                    genv[("param", i + 1)] = _eval_key(P, f, a, env)
+                except X.NotEvaluable:
+                    pass
+            return stamped_id(P, g, genv, agent_adt, depth + 1)
+    raise X.NotEvaluable("the returned AgentChannel is not built from evaluable ids")
+
+
 def check_dir_network(res, P, spec):
     crate = "pallas_network"
     bit = spec["mode_bit"]
+    agent_adt = "pallas_network::multiplexer::AgentChannel"
+    _SYM_CACHE.clear()
+    _REACH.clear()
     fns = {}
     for f in P.by_crate[crate]:
         if is_test_code(f) or f.kind == "Closure":
             continue
-        if f.local_ty(0) == "pallas_network::multiplexer::AgentChannel" and call_sites(f, r"::Demuxer::subscribe$"):
-            fns[f.name] = f
+        u16s = [i for i in range(1, f.argc + 1) if f.local_ty(i) == "u16"]
+        if f.local_ty(0) == agent_adt and len(u16s) == 1 and _reaches_subscribe(P, f):
+            fns[f.path] = (f, u16s[0])
     res.count("dir_subscribe_fns", len(fns))
     tables = {}
-    for name, f in fns.items():
-        sub = call_sites(f, r"::Demuxer::subscribe$")
-        if len(sub) != 1:
-            res.violation("dir:%s:shape" % f.path, "%s subscribes %d times" % (f.path, len(sub)), where=fn_loc(f), rule="DIR")
-            continue
-        recv_sym = f.sym_operand(sub[0][1]["args"][1])
-        send_sym = agent_protocol_expr(P, f)
-        if send_sym is None:
-            res.violation("dir:%s:send-id" % f.path, "%s: cannot determine the id the returned AgentChannel sends with" % f.path, where=fn_loc(f), rule="DIR")
-            continue
+    for name, (f, pi) in fns.items():
         try:
-            tables[name] = ([X.eval_int(send_sym, p) for p in range(bit)], [X.eval_int(recv_sym, p) for p in range(bit)], f, sub[0][1])
+            send, recv = [], []
+            for p in range(bit):
+                env = {("param", pi): p}
+                ids = subscribed_ids(P, f, env)
+                if len(ids) != 1:
+                    raise X.NotEvaluable("%d subscriptions" % len(ids))
+                recv.append(ids[0])
+                send.append(stamped_id(P, f, env, agent_adt))
+            tables[name] = (send, recv, f, None)
         except X.NotEvaluable as e:
-            res.violation("dir:%s:eval" % f.path, "%s: channel id expression not evaluable (%s)" % (f.path, e), where=fn_loc(f), rule="DIR")
+            res.violation("dir:%s:eval" % f.path, "%s: the ids it subscribes / stamps outbound chunks with cannot be evaluated (%s); fail closed" % (f.path, e),
+                          where=fn_loc(f), rule="DIR")
     roles = {}
     for name, (send, recv, f, t) in tables.items():
         if all(send[p] == p for p in range(bit)) and all(recv[p] == (p | bit) for p in range(bit)):
@@ -542,7 +806,7 @@ def check_dir_network(res, P, spec):
             bad = next(p for p in range(bit) if not ((send[p] == p and recv[p] == (p | bit)) or (send[p] == (p | bit) and recv[p] == p)))
             res.violation("dir:%s:ids" % f.path, "%s: for protocol id %d the channel sends with id 0x%04x and receives on id 0x%04x; one side must use "
                           "the id with the mode bit clear (initiator→responder) and the other the id with bit 0x%x set, otherwise chunks reach "
-                          "the wrong role or nobody" % (f.path, bad, send[bad], recv[bad], bit), where=where(f, t.get("s")), rule="DIR")
+                          "the wrong role or nobody" % (f.path, bad, send[bad], recv[bad], bit), where=fn_loc(f), rule="DIR")
     if set(roles) != {"initiator", "responder"}:
         res.violation("dir:network:roles", "expected one initiator-side and one responder-side subscription function, found %s" % (
             {k: [f.path for f in v] for k, v in roles.items()}), rule="DIR")
@@ -555,11 +819,13 @@ def check_dir_network(res, P, spec):
         for bi, t in f.calls():
             full = t.get("ffull") or t.get("gfull") or ""
             if cname(t) == "tokio::sync::mpsc::bounded::Sender::send" and "(u16, alloc::vec::Vec<u8>)" in full:
-                sym = f.sym_operand(t["args"][1])
+                sym = X.SymX(f).operand(t["args"][1])
                 ok = False
-                if sym[0] == "agg" and sym[1] == "tuple":
-                    key, fields = X.named_field_path(f, tuple_field_operand(f, t["args"][1], 0))
-                    ok = bool(fields) and fields[-1] == "protocol"
+                if sym[0] == "agg" and sym[1] == "tuple" and sym[3]:
+                    first = sym[3][0]
+                    while first[0] in ("cast", "ref", "deref"):
+                        first = first[1]
+                    ok = first[0] == "field" and first[2] == "protocol"
                 if ok:
                     res.ok("dir:%s:enqueue-id" % f.path, "DIR", "chunks are enqueued with the channel's own `protocol`")
                 else:
@@ -657,6 +923,12 @@ def check_dir_network2(res, P, spec):
             if not ((t.get("g") or t.get("f") or "").endswith("Message::from_payload") and t.get("trait")):
                 continue
             sym = X.SymX(f).operand(t["args"][0])
+            if f.kind == "Closure" and not X.is_coroutine_state_ty(f.local_ty(1) if f.argc else ""):
+                # the decode loop written as a closure (`iter::from_fn(|| M::from_payload(channel, &mut payload))`): the key is a
+                # captured variable, judged where the closure is built
+                lifted = X.lift_operand(P, f, t["args"][0])
+                if lifted is not None:
+                    sym = X.SymX(lifted[0]).operand(lifted[2])
             try:
                 bad = next((r for r in range(0x10000) if X.eval_int(sym, r) != (r & (bit - 1))), None)
             except X.NotEvaluable as e:
@@ -801,7 +1073,7 @@ def _eval_key(P, f, sym, env, depth=0):
             raise X.NotEvaluable("call to %s" % strip_generics(sym[1]))
         args = [_eval_key(P, f, a, env, depth) for a in sym[2]]
         genv = {("param", i + 1): v for i, v in enumerate(args)}
-        ret = X.SymX(g)._slot(0, 40)
+        ret = _ret_sym(g)
         return _eval_key(P, g, ret, genv, depth + 1)
     raise X.NotEvaluable("expression %s" % k)
 
